@@ -358,14 +358,14 @@ pub fn run(ctx: &Ctx) {
     let max_ops = ctx.sz(150, 600) as usize;
     for v in VARIANTS {
         let lim = if v == Variant::V7 { &lim7 } else { &lim6 };
-        ctx.prop(&format!("calls/{}", v.name()), ctx.n(3000, 60_000), || case_strategy(max_ops), |c: &Case| check(v, c, lim));
+        ctx.prop(&format!("calls/{}", v.name()), ctx.n(3000, 300_000), || case_strategy(max_ops), |c: &Case| check(v, c, lim));
     }
     // histories through the 1024 sequence wrap (sequence numbers on the wire are checked against the model)
     for v in VARIANTS {
         let lim = if v == Variant::V7 { &lim7 } else { &lim6 };
         ctx.prop(
             &format!("wrap/{}", v.name()),
-            ctx.n(100, 2000),
+            ctx.n(100, 8000),
             || wrap_history_strategy(1000).prop_map(|ops| Case { ops }),
             |c: &Case| check(v, c, lim),
         );
